@@ -729,10 +729,24 @@ def run_entry_point(ctx: Ctx, res: Result) -> None:
         "external_exclusions xor regex_external_exclusions": f_and([b("regex_external_exclusions"), b("external_exclusions")]),
         "external patterns need included externals": f_and([b("exclude_external_libraries"), f_or([b("external_exclusions"), b("regex_external_exclusions")])]),
     }
+    known = {f"bool({q})" for q in params} | {f"{q} is None" for q in params}
     for label, want in expected.items():
         hits = [o for o in rets if consistent(o, want)]
         ae = [o for o in sym.outcomes if o.kind == "raise" and is_assertion_error(ctx.repo, o.exc) and consistent(o, want)]
         ok = not hits and not ae
+        if hits and not ae:
+            # a configuration error is raised under a condition the run could not express over the options (a value went
+            # through something it does not model) and that condition is compatible with the invalid combination: no evidence
+            def opaque(a: str) -> bool:
+                # the result of a call that was not followed, or a value that has nothing to do with the options; a plain
+                # comparison of an option with something else (`exclusions != DEFAULT`) is an understood extra condition
+                inner = a[5:-1] if a.startswith("bool(") and a.endswith(")") else a
+                return "(" in inner or not any(q in inner for q in params)
+
+            vague = [r for r in rejections(sym) if consistent(r, want) and any(opaque(a) for a in atoms_of(r.cond) - known)]
+            if vague:
+                res.undecide("C13.R2", f"{ge.relpath}::{ge.qualname}::guard {label}", f"`{norm(vague[0].node, 60)}` is raised under `{show(vague[0].cond)[:160]}`, which the symbolic run could not relate to the options: it cannot tell whether `{show(want)}` is rejected", where_o(vague[0]))
+                continue
         res.add(
             "C13.R2",
             f"{ge.relpath}::{ge.qualname}::guard {label}",
